@@ -5,6 +5,8 @@ import PdfVerif.Spec.Xref
 
 namespace PdfVerif.Xref
 
+open PdfVerif.Gen.Xref
+
 instance : DecidableEq (Except Err Val) := fun a b =>
   match a, b with
   | .ok x, .ok y => if h : x = y then isTrue (by rw [h]) else isFalse (by intro h'; cases h'; exact h rfl)
@@ -67,7 +69,7 @@ theorem tryEntry_comp {whole objs n v e c} (rec : Nat → Except Err Val)
         · intro hrec
           unfold tryEntry
           rw [hs]
-          simp only [hrec, objstmMember, ht, h]
+          simp only [hrec, objstmMember, objstmIndex, ht, h]
         · intro id' k' toks' hv
           exact toVal_ne_objstm t id' k' toks' (h.trans hv)
 
